@@ -1,9 +1,9 @@
 //go:build verif
 
-package goldilocks
+package goldilocks_test
 
 // C12 for the Goldilocks (edwards448) scalar field: Scalar.{FromBytes, Red, Neg,
-// Add, Sub, Mul, IsZero, divBy4} against math/big mod
+// Add, Sub, Mul, IsZero} (exported API only: external test package; divBy4 has a file of its own) against math/big mod
 // l = 2^446 - 13818066809895115352007386748515426880336692474882178609894547503885.
 // Scalar is a 56-byte array: every 56-byte string is an operand (the package's
 // own tests draw uniformly random 56-byte operands and demand reduced results).
@@ -13,6 +13,7 @@ import (
 	"os"
 	"testing"
 
+	"github.com/cloudflare/circl/ecc/goldilocks"
 	"github.com/cloudflare/circl/internal/verifmc"
 	bf "github.com/cloudflare/circl/internal/verifref/bigfield"
 )
@@ -20,17 +21,17 @@ import (
 func c12ScalarField() *bf.Field {
 	return &bf.Field{
 		Prop: "C12", Name: "goldilocks.Scalar", P: bf.L448, Hex: 112,
-		New: func() bf.Elem { return new(Scalar) },
+		New: func() bf.Elem { return new(goldilocks.Scalar) },
 		Load: func(z bf.Elem, v *big.Int) bool {
 			if v.Sign() < 0 || v.BitLen() > 448 {
 				return false
 			}
-			copy(z.(*Scalar)[:], bf.LE(v, ScalarSize))
+			copy(z.(*goldilocks.Scalar)[:], bf.LE(v, goldilocks.ScalarSize))
 			return true
 		},
-		Copy: func(d, s bf.Elem) { *d.(*Scalar) = *s.(*Scalar) },
-		Raw:  func(x bf.Elem) *big.Int { return bf.FromLE(x.(*Scalar)[:]) },
-		Same: func(a, b bf.Elem) bool { return *a.(*Scalar) == *b.(*Scalar) },
+		Copy: func(d, s bf.Elem) { *d.(*goldilocks.Scalar) = *s.(*goldilocks.Scalar) },
+		Raw:  func(x bf.Elem) *big.Int { return bf.FromLE(x.(*goldilocks.Scalar)[:]) },
+		Same: func(a, b bf.Elem) bool { return *a.(*goldilocks.Scalar) == *b.(*goldilocks.Scalar) },
 		Junk: bf.Pseudo("goldilocks-junk", 0, bf.Pow2(448)),
 		Par:  verifmc.ParallelFor,
 	}
@@ -86,7 +87,7 @@ func TestVerifC12_goldilocksscalar(t *testing.T) {
 	if bad := bf.SelfCheck(); len(bad) != 0 {
 		t.Fatalf("reference constants not bound: %v", bad)
 	}
-	ord := Curve{}.Order()
+	ord := goldilocks.Curve{}.Order()
 	if bf.FromLE(ord[:]).Cmp(bf.L448) != 0 {
 		t.Fatalf("Curve.Order() differs from RFC 8032")
 	}
@@ -101,29 +102,23 @@ func TestVerifC12_goldilocksscalar(t *testing.T) {
 	r.NotExhaustive("operands are the declared alphabet, not all 2^448 strings")
 
 	bin := []bf.BinOp{
-		{Name: "Add", Do: func(z, x, y bf.Elem) { z.(*Scalar).Add(x.(*Scalar), y.(*Scalar)) }, Ref: bf.RefAdd, Canon: true},
-		{Name: "Sub", Do: func(z, x, y bf.Elem) { z.(*Scalar).Sub(x.(*Scalar), y.(*Scalar)) }, Ref: bf.RefSub, Canon: true},
-		{Name: "Mul", Do: func(z, x, y bf.Elem) { z.(*Scalar).Mul(x.(*Scalar), y.(*Scalar)) }, Ref: bf.RefMul, Canon: true},
+		{Name: "Add", Do: func(z, x, y bf.Elem) { z.(*goldilocks.Scalar).Add(x.(*goldilocks.Scalar), y.(*goldilocks.Scalar)) }, Ref: bf.RefAdd, Canon: true},
+		{Name: "Sub", Do: func(z, x, y bf.Elem) { z.(*goldilocks.Scalar).Sub(x.(*goldilocks.Scalar), y.(*goldilocks.Scalar)) }, Ref: bf.RefSub, Canon: true},
+		{Name: "Mul", Do: func(z, x, y bf.Elem) { z.(*goldilocks.Scalar).Mul(x.(*goldilocks.Scalar), y.(*goldilocks.Scalar)) }, Ref: bf.RefMul, Canon: true},
 	}
 	for _, op := range bin {
 		f.CheckBin(r, op, all, all, op.Name == "Mul" && bf.HashPairs(all.Len()*all.Len()))
 	}
 	r.Count("ordered_pairs", all.Len()*all.Len())
-	four := big.NewInt(4)
 	un := []bf.UnOp{
-		{Name: "Neg", Do: func(z, x bf.Elem) { *z.(*Scalar) = *x.(*Scalar); z.(*Scalar).Neg() }, Ref: bf.RefNeg, Canon: true},
-		{Name: "Red", Do: func(z, x bf.Elem) { *z.(*Scalar) = *x.(*Scalar); z.(*Scalar).Red() }, Ref: bf.RefId, Canon: true},
-		{Name: "FromBytes56", Do: func(z, x bf.Elem) { b := *x.(*Scalar); z.(*Scalar).FromBytes(b[:]) }, Ref: bf.RefId, Canon: true},
-		{Name: "divBy4", Do: func(z, x bf.Elem) { z.(*Scalar).divBy4(x.(*Scalar)) }, Ref: func(out, x, p *big.Int) bool {
-			out.ModInverse(four, p)
-			out.Mul(out, x).Mod(out, p)
-			return true
-		}, Canon: true},
+		{Name: "Neg", Do: func(z, x bf.Elem) { *z.(*goldilocks.Scalar) = *x.(*goldilocks.Scalar); z.(*goldilocks.Scalar).Neg() }, Ref: bf.RefNeg, Canon: true},
+		{Name: "Red", Do: func(z, x bf.Elem) { *z.(*goldilocks.Scalar) = *x.(*goldilocks.Scalar); z.(*goldilocks.Scalar).Red() }, Ref: bf.RefId, Canon: true},
+		{Name: "FromBytes56", Do: func(z, x bf.Elem) { b := *x.(*goldilocks.Scalar); z.(*goldilocks.Scalar).FromBytes(b[:]) }, Ref: bf.RefId, Canon: true},
 	}
 	for _, op := range un {
 		f.CheckUn(r, op, all, true)
 	}
-	f.CheckPred(r, bf.Pred{Name: "IsZero", Do: func(x bf.Elem) bool { return x.(*Scalar).IsZero() }, Ref: bf.RefIsZero}, all)
+	f.CheckPred(r, bf.Pred{Name: "IsZero", Do: func(x bf.Elem) bool { return x.(*goldilocks.Scalar).IsZero() }, Ref: bf.RefIsZero}, all)
 	{
 		l := bf.L448
 		b := []bf.Operand{{V: new(big.Int), Name: "0"}, {V: big.NewInt(1), Name: "1"}, {V: new(big.Int).Sub(l, big.NewInt(1)), Name: "p-1"}, {V: bf.Pseudo("goldilocks-pred", 0, l), Name: "pseudo0"}, {V: bf.Pseudo("goldilocks-pred", 1, l), Name: "pseudo1"}}
@@ -131,14 +126,14 @@ func TestVerifC12_goldilocksscalar(t *testing.T) {
 			b = append(b, bf.Operand{V: new(big.Int).Mul(l, big.NewInt(k)), Name: "k*l"})
 		}
 		b = append(b, bf.Operand{V: new(big.Int).Sub(bf.Pow2(448), big.NewInt(1)), Name: "2^448-1"})
-		f.CheckBitFlips(r, bf.BitFlip{Coords: 1, Bits: 448, P: l, Limit: bf.Pow2(448), IsZero: func(x bf.Elem) bool { return x.(*Scalar).IsZero() }}, b)
+		f.CheckBitFlips(r, bf.BitFlip{Coords: 1, Bits: 448, P: l, Limit: bf.Pow2(448), IsZero: func(x bf.Elem) bool { return x.(*goldilocks.Scalar).IsZero() }}, b)
 		r.RequireCounter("goldilocks.Scalar.predicates.one-bit-neighbours", 10*448)
 	}
 	r.RequireCounter("goldilocks.Scalar.IsZero.true", 5) // 0, l, 2l, 3l, 4l
 
 	// FromBytes on every input length 0..171 (three times the scalar size) and four fills
 	var nfb int
-	maxLen := 3*ScalarSize + 3
+	maxLen := 3*goldilocks.ScalarSize + 3
 	fills := map[string]func(i int) byte{
 		"ff": func(int) byte { return 0xff }, "00": func(int) byte { return 0 },
 		"inc": func(i int) byte { return byte(i*37 + 1) }, "pseudo": nil,
@@ -160,7 +155,7 @@ func TestVerifC12_goldilocksscalar(t *testing.T) {
 			v := bf.FromLE(b)
 			z := f.New()
 			f.Copy(z, all.E[all.Len()/2])
-			z.(*Scalar).FromBytes(b)
+			z.(*goldilocks.Scalar).FromBytes(b)
 			r.Eval(1)
 			r.Distinct(cid)
 			nfb++
@@ -172,7 +167,7 @@ func TestVerifC12_goldilocksscalar(t *testing.T) {
 	for _, pad := range []int{0, 3} {
 		pad := pad
 		f.CheckFromInt(r, "FromBytes", 448, bf.NonNegative(bf.SignedLadder(bf.L448, 446, "goldilocks")), true, func(z bf.Elem, v *big.Int) bool {
-			z.(*Scalar).FromBytes(bf.LE(v, (v.BitLen()+7)/8+pad))
+			z.(*goldilocks.Scalar).FromBytes(bf.LE(v, (v.BitLen()+7)/8+pad))
 			return true
 		})
 	}
